@@ -200,7 +200,7 @@ func (w *World) Named(rel, name string) *types.Named {
 	if o == nil {
 		return nil
 	}
-	n, _ := o.Type().(*types.Named)
+	n, _ := types.Unalias(o.Type()).(*types.Named)
 	return n
 }
 
